@@ -225,12 +225,16 @@ pub struct CaseB {
     pub plan: String,
     pub stale_log: bool,
     pub hash_seed: u64,
+    /// Some(plan): stdout (class o) fails hard part-way — the reader of the pipe went away, the disk under the redirection is
+    /// full. The same plan is applied to the flag-free run. The program then dies at a print; the log must be well-formed and
+    /// hold every allocation made before the last byte that still reached stdout.
+    pub stdout_fault: Option<String>,
 }
 
 impl CaseB {
     pub fn to_json(&self) -> Value {
         json!({"engine": ENGINE_B, "program": self.spec.to_json(), "profile": self.profile.name(), "action": self.action, "size_mb": self.size_mb,
-               "log_path": self.log_path, "clock": self.clock, "plan": self.plan, "stale_log": self.stale_log, "hash_seed": self.hash_seed})
+               "log_path": self.log_path, "clock": self.clock, "plan": self.plan, "stale_log": self.stale_log, "hash_seed": self.hash_seed, "stdout_fault": self.stdout_fault})
     }
     pub fn from_json(v: &Value) -> Option<CaseB> {
         Some(CaseB {
@@ -243,6 +247,7 @@ impl CaseB {
             plan: v.get("plan")?.as_str()?.to_string(),
             stale_log: v.get("stale_log").and_then(|x| x.as_bool()).unwrap_or(false),
             hash_seed: v.get("hash_seed")?.as_u64()?,
+            stdout_fault: v.get("stdout_fault").and_then(|c| c.as_str()).map(|s| s.to_string()),
         })
     }
 }
@@ -254,6 +259,7 @@ pub struct ObsB {
     pub log_faults: u64,
     pub failing: bool,
     pub records: usize,
+    pub stdout_fault_fired: bool,
 }
 
 pub fn check_b(case: &CaseB) -> Result<Option<ObsB>, (String, String)> {
@@ -284,7 +290,7 @@ pub fn check_b(case: &CaseB) -> Result<Option<ObsB>, (String, String)> {
     };
     // without any memory flag
     let mut plain = Child::new(case.profile, &[case.action.as_str(), input]);
-    plain.shim = Some(ShimCfg { seed: case.hash_seed, ..Default::default() });
+    plain.shim = Some(ShimCfg { seed: case.hash_seed, plan: case.stdout_fault.clone().unwrap_or_default(), ..Default::default() });
     let p = run_child(&dir, &plain);
     children += 1;
     // with flags
@@ -300,7 +306,8 @@ pub fn check_b(case: &CaseB) -> Result<Option<ObsB>, (String, String)> {
         std::fs::write(&path, old).unwrap();
     }
     let mut flagged = Child::new(case.profile, &args);
-    flagged.shim = Some(ShimCfg { seed: case.hash_seed ^ 0x55, plan: case.plan.clone(), clock: case.clock.clone(), junk: 0, budget: Some(2_000_000) });
+    let full_plan = match &case.stdout_fault { Some(sf) if case.plan.is_empty() => sf.clone(), Some(sf) => format!("{};{}", case.plan, sf), None => case.plan.clone() };
+    flagged.shim = Some(ShimCfg { seed: case.hash_seed ^ 0x55, plan: full_plan, clock: case.clock.clone(), junk: 0, budget: Some(2_000_000) });
     let f = run_child(&dir, &flagged);
     children += 1;
     let log = std::fs::read(dir.join(&case.log_path));
@@ -332,10 +339,30 @@ pub fn check_b(case: &CaseB) -> Result<Option<ObsB>, (String, String)> {
     increments(&parsed.sizes).map_err(|e| ("H3:size_not_strictly_increasing".to_string(), e))?;
     // same program, same history: the CLI's records must be the in-process ones (whether it ended well or not)
     let comparable = !matches!(inproc.end, RunEnd::Panic(_));
-    if comparable {
+    let stdout_fault_fired = f.trace.lines().any(|l| l.starts_with("W o ") && l.contains("-> E") && !l.ends_with("-> E4"));
+    if stdout_fault_fired {
+        // the run was cut short by its stdout: the log holds a prefix of the program's allocation history (same cumulative sizes
+        // as the undisturbed in-process history has) that covers at least every allocation made before the last byte that arrived
+        let arrived = f.stdout.len().max(1);
+        let at_least = inproc.alloc_marks.iter().filter(|m| **m < arrived).count();
+        // (after a panic inside the VM the heap is not enumerated; the marks were taken step by step and are complete up to it)
+        let total = inproc.heap.len().max(inproc.alloc_marks.len());
+        if parsed.sizes.len() < at_least || parsed.sizes.len() > total {
+            return Err(("H2:records_lost_when_stdout_failed".into(), format!("stdout failed after {} bytes had arrived; the program had created {} arrays/objects before producing that much output (and creates {} in all), the log holds {} A records",
+                f.stdout.len(), at_least, total, parsed.sizes.len())));
+        }
+    } else if comparable {
         if parsed.sizes.len() != inproc.heap.len() {
             return Err(("H2:record_count_differs_from_heap".into(), format!("the CLI logged {} A records; the program creates {} arrays/objects before it {}", parsed.sizes.len(), inproc.heap.len(),
                 if inproc.end == RunEnd::Ok { "ends" } else { "fails" })));
+        }
+    }
+    if !stdout_fault_fired && !comparable {
+        // the VM panicked part-way (zero divisor, ...): the heap could not be enumerated in-process, but the allocations were
+        // counted step by step up to the panicking step (which itself may or may not have allocated before it panicked)
+        let n = inproc.alloc_marks.len();
+        if parsed.sizes.len() < n || parsed.sizes.len() > n + 1 {
+            return Err(("H2:record_count_differs_from_heap".into(), format!("the CLI logged {} A records; the program creates {} arrays/objects before it panics", parsed.sizes.len(), n)));
         }
     }
     let mut reads = 0u64;
@@ -355,7 +382,7 @@ pub fn check_b(case: &CaseB) -> Result<Option<ObsB>, (String, String)> {
     if case.clock.is_some() && reads as usize != parsed.sizes.len() + 1 {
         // one clock reading per record: S + every A (informational invariant of the seam, not a verdict)
     }
-    Ok(Some(ObsB { children, clock_reads: reads, clock_backwards: back, log_faults, failing: f.exit.is_clean_failure(), records: parsed.sizes.len() }))
+    Ok(Some(ObsB { children, clock_reads: reads, clock_backwards: back, log_faults, failing: f.exit.is_clean_failure(), records: parsed.sizes.len(), stdout_fault_fired }))
 }
 
 pub fn replay_b(v: &Value) -> Result<Option<(String, String)>, String> {
@@ -373,6 +400,7 @@ fn minimise_b(case: &CaseB, oracle: &str) -> CaseB {
     if !best.plan.is_empty() { let mut c = best.clone(); c.plan = String::new(); if still(&c) { best = c; } }
     if best.clock.is_some() { let mut c = best.clone(); c.clock = None; if still(&c) { best = c; } }
     if best.stale_log { let mut c = best.clone(); c.stale_log = false; if still(&c) { best = c; } }
+    if best.stdout_fault.is_some() { let mut c = best.clone(); c.stdout_fault = None; if still(&c) { best = c; } }
     if best.size_mb.is_some() { let mut c = best.clone(); c.size_mb = None; if still(&c) { best = c; } }
     if best.action != "run" { let mut c = best.clone(); c.action = "run".into(); if still(&c) { best = c; } }
     if let ProgSpec::Stmts(stmts) = &best.spec {
@@ -576,13 +604,20 @@ pub fn run(seed: u64, tier: &str, ev: &mut Evidence) -> Vec<Violation> {
             plan: match rng.below(4) { 0 => format!("f:*:l:{}", rng.pick(&[1u32, 2, 3, 5])), 1 => format!("f:{}:e:0", rng.below(8)), 2 => format!("f:{}:s:1", rng.below(8)), _ => String::new() },
             stale_log: rng.below(4) == 0,
             hash_seed: rng.next_u64(),
+            stdout_fault: None,
         };
+        let mut case = case;
+        if i % 5 == 3 {
+            // stdout fails hard at one of its first write calls (EPIPE: the reader went away; ENOSPC/EIO: the redirection target)
+            case.stdout_fault = Some(format!("o:{}:x:{}", rng.below(6), rng.pick(&[32u32, 32, 28, 5])));
+        }
         match check_b(&case) {
             Ok(o) => (1, o, None, case),
             Err((o, d)) => (1, None, Some((case.clone(), o, d)), case),
         }
     });
     let (mut children, mut reads, mut back, mut faults, mut failing, mut recs) = (0u64, 0u64, 0u64, 0u64, 0u64, 0u64);
+    let mut stdout_failed = 0u64;
     let mut raw_b = Vec::new();
     for (n, obs, v, case) in outs_b {
         ev.evaluations += n;
@@ -592,6 +627,7 @@ pub fn run(seed: u64, tier: &str, ev: &mut Evidence) -> Vec<Violation> {
             if o.clock_backwards { back += 1; }
             faults += o.log_faults;
             if o.failing { failing += 1; }
+            if o.stdout_fault_fired { stdout_failed += 1; }
             recs += o.records as u64;
             ev.distinct.insert(digest_of(&(digest_bytes(case.spec.source().unwrap_or_default().as_bytes()), case.profile, &case.action, case.size_mb, &case.log_path, &case.clock, &case.plan)));
             if ev.samples.len() < 6 && o.records > 0 && (o.clock_backwards || o.log_faults > 0) {
@@ -607,6 +643,7 @@ pub fn run(seed: u64, tier: &str, ev: &mut Evidence) -> Vec<Violation> {
     ev.count("layer_b.runs_where_clock_went_backwards", back);
     ev.count("layer_b.log_fd_write_faults_fired", faults);
     ev.count("layer_b.programs_failing_part_way", failing);
+    ev.count("layer_b.runs_cut_short_by_a_hard_error_on_stdout", stdout_failed);
     ev.count("layer_b.A_records_checked", recs);
     let mut seen: Vec<String> = Vec::new();
     for (case, oracle, detail) in raw_b {
